@@ -117,3 +117,44 @@ Fixpoint eng_mismatches_from (i : nat) (cs : list eng_case) : list (nat * list n
               | l => (i, l) :: eng_mismatches_from (S i) r
               end
   end.
+
+(* ------------------------------------------------------------------------------------------------------------
+   K-eng-sqlite, rows (C05): libsqlite3's catalog and row snapshot before a migration, and its row snapshot after executing
+   the implementation's statements (or the flat position of the first failing statement); the model executes the
+   model's statements with Rows.exec_db. *)
+From VV.SQLITE Require Export Rows.
+
+Definition value_match (model real : value) : bool :=
+  match model, real with
+  | VAny, VText _ => true
+  | _, _ => value_eqb model real
+  end.
+Definition row_match (m r : row) : bool :=
+  list_eqb (fun a b => (String.eqb (fst a) (fst b) && value_match (snd a) (snd b))%bool) m r.
+Definition table_rows_match (m r : string * list row) : bool :=
+  (String.eqb (fst m) (fst r) && perm_eqb row_match (snd m) (snd r))%bool.
+Definition rows_equiv (m r : rows_db) : bool := perm_eqb table_rows_match m r.
+
+Record rows_case := mkRowsCase {
+  r_fk : bool;
+  r_pre_cat : catalog;
+  r_pre_rows : rows_db;
+  r_baseline : schema;
+  r_actions : list action;
+  r_real : result rows_db nat }.
+
+Definition check_rows (c : rows_case) : bool :=
+  match gen_plan (r_baseline c) (r_actions c) with
+  | Err _ => true
+  | Ok ls =>
+      match exec_db_all (r_fk c) (mkDb (r_pre_cat c) (r_pre_rows c)) (List.concat ls) 0, r_real c with
+      | Ok d, Ok rr => rows_equiv (db_rows d) rr
+      | Err (i, _), Err j => Nat.eqb i j
+      | _, _ => false
+      end
+  end.
+Fixpoint rows_mismatches_from (i : nat) (cs : list rows_case) : list nat :=
+  match cs with
+  | [] => []
+  | c :: r => if check_rows c then rows_mismatches_from (S i) r else i :: rows_mismatches_from (S i) r
+  end.
